@@ -4,8 +4,23 @@ import re
 from ..core import Prop
 
 
-def tcase(name="t", stream=1, service="", method="", rawreq=False, rawresp=False, junk=False):
-    return [name, stream, service, method, rawreq, rawresp, junk]
+def tcase(name="t", stream=1, service="", method="", rawreq=False, rawresp=False, junk=False, extras=None):
+    t = [name, stream, service, method, rawreq, rawresp, junk]
+    if extras is not None:
+        t.append(extras)
+    return t
+
+
+def extras(other=(), expand=(), mark=None):
+    """the fields of a TestCase besides the request: other_allowed_error_codes, expand_requests (sizes relative to the
+    limit), an explicit expected_response (carrying the mark); all numbers and lengths stay below 256"""
+    return [list(other), list(expand), [] if mark is None else [mark]]
+
+
+def rnd_extras(rng):
+    return extras([rng.randrange(1, 17) for _ in range(rng.choice([0, 1, 1, 2, 3]))],
+                  [rng.randrange(0, 200) for _ in range(rng.choice([0, 0, 1, 2]))],
+                  None if rng.random() < 0.5 else bytes(rng.choice(b"ab\x00\xff") for _ in range(rng.randrange(0, 4))))
 
 
 def suite(name="S", mode=0, p=(), v=(), c=(), z=(), cvm=0, tls=False, certs=False, get=False, limit=False, tcs=None):
@@ -49,11 +64,14 @@ class C07(Prop):
             "config cases; the real newTestCaseLibrary is called five times per case (fresh suites, three times on the same suite "
             "objects, reversed config-case list; all must agree); compared: error-or-(sorted permutations with name, simple name, "
             "version, protocol, codec, compression, stream type, server cert, client creds, service, method, receive limit, raw flags, "
-            "the casesByServer key under which it is found; number of groups; sorted names of allPermutations(true,true); lengths of "
+            "the TestCase's other fields (other_allowed_error_codes, expand_requests, mark of an explicit expected_response - given to 40-60 % "
+            "of the generated test cases), the casesByServer key under which it is found; number of groups; (name, other fields) of every "
+            "member of allPermutations(true,true), sorted; lengths of "
             "the other three allPermutations; serverInstancesSlice(lib, sorted=true) IN ORDER (the unsorted slice as a set); number of "
             "names allPermutations(true,true) issues more than once). c07.filter: filterGRPCImplTestCases over the whole product "
             "protocol 0-4 x version 0-4 x codec 0-3 x compression 0-3,6 x TLS x raw request x raw response for the four flag pairs "
-            "(order compared). c07.join: path.Join on every list of <=3 elements over 13 path-like elements + random. c07.marker: "
+            "(order compared; per output its name and the TestCase's other fields; Go side also requires every output to be proto.Equal "
+            "to an input under another name, and the inputs untouched). c07.join: path.Join on every list of <=3 elements over 13 path-like elements + random. c07.marker: "
             "addGRPCMarkerToName. c07.parse: parseTestSuites' mode restrictions on raw request / raw response. "
             "non-trivial = a library was built (c07.lib) / any result (others)")
     trusted_base = ("Coq 8.16.1 kernel (vm_compute on the finite enum-name tables and in examples)",
@@ -72,7 +90,10 @@ class C07(Prop):
                   "suites (in any map iteration order), every set of config cases and every run mode, exactly the permutations the "
                   "directives admit, with pairwise distinct names that spell exactly the open axes, request fields taken from the "
                   "config case, default service/method per stream type, each grouped under exactly its own server instance, and that "
-                  "the gRPC-peer filter equals the documented applicability predicate. Uniqueness of the full name is proved twice: "
+                  "the gRPC-peer filter equals the documented applicability predicate and every gRPC-peer variant is the permutation it "
+                  "was made from in everything but the name (request fields, other_allowed_error_codes, expand_requests, expected "
+                  "response: grpc_variant_is_original_but_name, all_permutations_variants; a library permutation carries these fields of its "
+                  "test case as written: permutation_carries_extras). Uniqueness of the full name is proved twice: "
                   "unconditionally through the library's duplicate check (names_unique; colliding_names_rejected: two different admitted "
                   "(suite, case, test) triples with one name make the library fail, never merge), and constructively "
                   "(full_name_injective: through the exact model of path.Join/Clean the name is an injective function of (suite, "
@@ -83,7 +104,9 @@ class C07(Prop):
                   "groups are proved stable as multisets only, with examples showing the lists differ. The model is tied to the Go "
                   "code by a bounded-exhaustive plus random differential run on every check.")
     level_note = ("Trusted: Coq kernel, extraction, OCaml driver, harness; the correspondence between model and Go code is sampled "
-                  "(bounded-exhaustive on small axis sets + random), not proved. populateExpectedResponses is outside the model. "
+                  "(bounded-exhaustive on small axis sets + random), not proved. populateExpectedResponses is outside the model (an explicit "
+                  "expected response is represented by a mark the harness puts into it; the computed ones are not compared, but the Go side "
+                  "of c07.filter requires whole-message equality of variant and original up to the name). "
                   "Nothing is partial any more: components_injective is closed by C07_Join.v (path.Join injective on well-formed "
                   "segments). Constructive injectivity assumes declared enum numbers in the suites' relevant lists (the printed form of "
                   "undeclared numbers is not analysed); the unconditional statements do not. Observation, not listed as a finding: a test-name segment equal "
@@ -150,6 +173,8 @@ class C07(Prop):
             i += 1
             simple = rng.choice(["t%d" % i, "a/t%d" % i, "t%d" % i, "x/../t%d" % i])
             allp.append(["S/n%d/%s" % (i, rng.choice([simple, simple, simple, "u"])), simple, p, v, cd, z, tls, rq, rs])
+            if rng.random() < 0.6:
+                allp[-1].append(rnd_extras(rng))       # the other fields of the TestCase: the variant must carry them
         for cl, sv in itertools.product((False, True), repeat=2):
             lst = allp[:]
             rng.shuffle(lst)
@@ -167,7 +192,8 @@ class C07(Prop):
         small = product_cases((1, 2), (1, 2), (1,), (1, 2), (1, 3), TLSCERTS, (False, True), (False, True))
         medium = product_cases((1, 2, 3), (1, 2, 3), (1, 2), (1, 2), (1, 2, 3, 4, 5), [(False, False), (True, False)], (False,), (False,))
         tiny = product_cases((1,), (1, 2), (1,), (1,), (1, 2), TLSCERTS, (False, True), (False, True), (0, 1, 2))
-        basic_tcs = [tcase("u", 1), tcase("s/x", 3), tcase("c", 2, "svc.X", "M")]
+        basic_tcs = [tcase("u", 1, extras=extras([13, 2], [], b"e")), tcase("s/x", 3, extras=extras([4])),
+                     tcase("c", 2, "svc.X", "M", extras=extras([], [0, 7]))]
 
         # (a) named scenarios
         yield ["c07.lib", 1, [suite("S", 1), suite("S", 2)], small]                       # differ only in mode -> rejected
@@ -230,7 +256,8 @@ class C07(Prop):
                 cs = [c[:9] + [rng.choice((0, cvm, cvm))] for c in small]
             if rng.random() < 0.5:
                 cs = rng.sample(cs, rng.randrange(len(cs) // 4, len(cs)))
-            tcs = [tcase("u", 1, junk=rng.random() < 0.3), tcase("s/x", 3), tcase("c", 2)]
+            tcs = [tcase("u", 1, junk=rng.random() < 0.3, extras=rnd_extras(rng) if rng.random() < 0.5 else None), tcase("s/x", 3),
+                   tcase("c", 2, extras=rnd_extras(rng) if rng.random() < 0.3 else None)]
             yield ["c07.lib", rmode, [suite("S", smode, p, v, cd, z, cvm, tls, certs, get, limit, tcs)], cs]
 
         # (c) all suite mode x run mode pairs, two suites
@@ -261,7 +288,8 @@ class C07(Prop):
             else:
                 svc, meth = rng.choice([("svc.X", ""), ("", "M")])
             nm = rng.choice(clean_tnames) if clean else rng.choice(tnames)
-            return tcase(nm, st, svc, meth, rng.random() < 0.15, rng.random() < 0.15, rng.random() < 0.2)
+            return tcase(nm, st, svc, meth, rng.random() < 0.15, rng.random() < 0.15, rng.random() < 0.2,
+                         rnd_extras(rng) if rng.random() < 0.4 else None)
 
         def rnd_suite(i, clean, big):
             tls = rng.random() < 0.3
@@ -339,7 +367,7 @@ class C07(Prop):
             chosen = rng.sample(pool, rng.randrange(2, 7))
             if rng.random() < 0.5:
                 chosen = list(dict.fromkeys(chosen + ["t", mk + "/t"]))
-            tcs = [tcase(nm, rng.choice([1, 1, 1, 3])) for nm in chosen]
+            tcs = [tcase(nm, rng.choice([1, 1, 1, 3]), extras=rnd_extras(rng) if rng.random() < 0.6 else None) for nm in chosen]
             ss = [suite(rng.choice(["S", "G", mk]), rng.choice([0, 0, 1, 2]), p=rng.choice([(2,), (2, 3), (), (3,)]), v=rng.choice([(), (2,), (1, 2)]),
                         c=rng.choice([(1,), ()]), z=rng.choice([(), (1,), (1, 2)]), tcs=tcs)]
             if rng.random() < 0.4:
